@@ -6,4 +6,5 @@ let machines : (string * Base.machine) list = [
   "mpmc", MpmcSpec.machine;
   "oneshot", OneshotSpec.machine;
   "state", StateBcastSpec.machine;
+  "timer", TimerSpec.machine;
 ]
